@@ -34,13 +34,15 @@ CAP = 2 ** 30
 
 BOUNDS = {
     "quick": dict(MaxLen=3, GCA={0, 1, 89, 90, 95, 180, 270, 275, 359}, BMax=1, MerLons={0, 95}, PoleLons={0, 217},
-                  EpsSet={0, 1, 2, 3}, MaxD=7, LonStep8=4, ShiftSet8={0, 1, 8, 360, 1440, 2879, 2880, 2881, 3240, 5760}),
+                  EpsSet={0, 1, 2, 3}, MaxD=7, LonStep8=4, ShiftSet8={0, 1, 8, 360, 1440, 2879, 2880, 2881, 3240, 5760},
+                  ScaleSizes={2 ** 18 - 1, 2 ** 18, 2 ** 18 + 1, 2 ** 19 + 3}),
     "thorough": dict(MaxLen=4, GCA={0, 1, 30, 45, 89, 90, 91, 95, 135, 180, 185, 270, 275, 359},
                      BMax=2, MerLons={0, 90, 95}, PoleLons={0, 217}, EpsSet={0, 1, 2, 3}, MaxD=11, LonStep8=1,
-                     ShiftSet8={0, 1, 7, 8, 360, 720, 1440, 1441, 2160, 2879, 2880, 2881, 3240, 4320, 5759, 5760, 5761, 8640}),
+                     ShiftSet8={0, 1, 7, 8, 360, 720, 1440, 1441, 2160, 2879, 2880, 2881, 3240, 4320, 5759, 5760, 5761, 8640},
+                     ScaleSizes={2 ** 18 - 1, 2 ** 18, 2 ** 18 + 1, 3 * 2 ** 18, 2 ** 19 + 3, 2 ** 20, 2 ** 20 + 1}),
 }
-MODEL_ACTIONS = ["Start", "Step", "PickFrame", "PickOpt", "PickGC1", "PickRS1", "PickShift", "PickCube", "PickAnchor"]
-MODEL_INVARIANTS = ["PathTheorems", "PointTheorems", "OptTheorems", "IsoTheorems", "ShiftTheorems", "ShiftRefines", "CubeTheorems",
+MODEL_ACTIONS = ["Start", "Step", "PickFrame", "PickOpt", "PickScale", "PickGC1", "PickRS1", "PickShift", "PickCube", "PickAnchor"]
+MODEL_INVARIANTS = ["PathTheorems", "PointTheorems", "OptTheorems", "ScaleTheorems", "IsoTheorems", "ShiftTheorems", "ShiftRefines", "CubeTheorems",
                     "AnchorTheorems"]
 ALLOW = Fraction(2, 10 ** 13)     # rounding of exact lattice / decimal inputs to doubles (<= 2.9e-14 degree per coordinate)
 EULER = ("eq2gal", "gal2eq", "eq2ec", "ec2eq", "ec2gal", "gal2ec")
@@ -634,7 +636,88 @@ def eval_xyz(job):
     return {"c": {"kind": "xyz", "u": u, "units": units, "dt": dt, "tol9": job["tol9"]}, "obs": obs, "meta": meta}
 
 
-EVAL = {"eqn": eval_eqn, "iso": eval_iso, "isor": eval_isor, "anchor": eval_anchor, "cube": eval_cube, "rot": eval_rot,
+def _bits_differ(a, b):
+    """elements that are not bit-identical (same dtype assumed, else compared by value)"""
+    if a.dtype == b.dtype and a.dtype.itemsize in (4, 8):
+        u = "u%d" % a.dtype.itemsize
+        return a.view(u) != b.view(u)
+    return ~((a == b) | (np.isnan(a) & np.isnan(b)))
+
+
+def eval_scale(job):
+    """one array call on n points (the m-point list tiled) against the tiled result of the small call"""
+    n, sel = job["n"], job["sel"]
+    obs, meta = [], {}
+    o = {"k": 1, "err": "none", "len": 0, "fin": False, "lx": 0, "el": 0, "eh": 0, "ul": 0, "d9": 0, "nbit": 0, "rng": True}
+    if sel == 0:                                   # shiftlon / shiftra on the dyadic lattice
+        u, mode, sv = job["u"], job["mode"], job["s"] / job["u"]
+        small = np.array(job["lons"], dtype="f8") / u
+        big = np.resize(small, n)
+        keep = big.tobytes()
+        try:
+            with np.errstate(all="ignore"):
+                rs = np.asarray(_shift_call(job["fn"], small, mode, sv), dtype="f8").ravel()
+                rb = np.asarray(_shift_call(job["fn"], big, mode, sv), dtype="f8").ravel()
+            if big.tobytes() != keep:
+                raise _Shape()
+            o["len"], o["fin"] = int(rb.size), bool(np.isfinite(rb).all())
+            if rb.size == n and rs.size == small.size:
+                bad = _bits_differ(rb, np.resize(rs, n))
+                o["nbit"] = int(bad.sum())
+                o["rng"] = bool(((rb >= 0.0) & (rb < 360.0)).all()) if mode.startswith("shift") else \
+                    bool(((rb >= -180.0) & (rb <= 180.0)).all()) if mode == "wrap" else True
+                meta[1] = {"first": int(np.argmax(bad)) if o["nbit"] else None, "mode": mode, "s": job["s"], "members": [[job["fn"], "array"]],
+                           "outside": [float(t) for t in rb[~((rb >= -180.0) & (rb < 360.0))][:3]]}
+        except Exception as e:  # noqa
+            o["err"] = "ArgumentModified" if isinstance(e, _Shape) else type(e).__name__
+        meta.setdefault(1, {"mode": mode, "s": job["s"], "members": [[job["fn"], "array"]]})
+        return {"c": {"kind": "scale", "sel": 0, "n": n, "m": len(job["lons"]), "mode": mode}, "obs": [o], "meta": meta}
+    si = job["si"]
+    st0 = concretise(job["frame"], job["pts"])
+    m = len(job["pts"])
+    big = St((np.resize(a, n) for a in st0), st0.kind)
+    ang = _ang(job)
+    try:
+        keep = [a.tobytes() for a in big]
+        with np.errstate(all="ignore"):
+            rs = [np.asarray(r).ravel() for r in _invoke(si, tuple(np.array(a) for a in st0), job["b1950"], ang, "f8")]
+            rb = [np.asarray(r).ravel() for r in _invoke(si, tuple(big), job["b1950"], ang, "f8")]
+        if [a.tobytes() for a in big] != keep:
+            raise _Shape()
+        kind = "xyz" if si["name"] == "eq2xyz" else ("rad" if (si["name"] == "xyz2eq" and si["units"] == "rad") else "deg")
+        o["len"] = int(min(r.size for r in rb))
+        if all(r.size == n for r in rb) and all(r.size == m for r in rs):
+            out = St(rb, kind)
+            tr = Track(n)
+            tr.step(si["name"], ["none"] * n, out)
+            o["fin"] = bool(tr.fin.all())
+            o["lx"] = d9_of(tr.latx.max(), 1e-14)[0]
+            if si["name"] == "eq2sdss" and o["fin"]:
+                o["el"], o["eh"] = int(math.floor(tr.emin.min())), int(math.ceil(tr.emax.max()))
+            ul = float(np.ceil(tr.ul.max()))
+            o["ul"] = int(min(ul, 2 ** 20)) if math.isfinite(ul) else 2 ** 20
+            exp = [np.resize(r, n) for r in rs]
+            bad = np.zeros(n, bool)
+            for a, b in zip(rb, exp):
+                bad |= _bits_differ(a, b)
+            o["nbit"] = int(bad.sum())
+            idx = np.nonzero(bad)[0][:20000]
+            if idx.size and o["fin"]:
+                d = d9_of(sep_states(St((a[idx] for a in rb), kind), St((b[idx] for b in exp), kind)))
+                o["d9"] = max(d)
+                worst = int(idx[int(np.argmax(d))])
+                meta[1] = {"worst": worst, "got": [float(a[worst]) for a in rb], "small": [float(b[worst]) for b in exp]}
+            if si["name"] == "eq2sdss":
+                w = np.nonzero((rb[0] < -180.0) | (rb[0] > 180.0))[0]
+                if w.size:
+                    meta.setdefault(1, {})["eta_outside"] = [(int(i), float(rb[0][i])) for i in w[:3]]
+    except Exception as e:  # noqa
+        o["err"] = "ArgumentModified" if isinstance(e, _Shape) else type(e).__name__
+    meta.setdefault(1, {})
+    return {"c": {"kind": "scale", "sel": sel, "n": n, "m": m, "mode": "none"}, "obs": [o], "meta": meta}
+
+
+EVAL = {"scale": eval_scale, "eqn": eval_eqn, "iso": eval_iso, "isor": eval_isor, "anchor": eval_anchor, "cube": eval_cube, "rot": eval_rot,
         "shift": eval_shift, "shiftr": eval_shiftr, "xyz": eval_xyz}
 
 
@@ -668,7 +751,7 @@ def options(job, m):
     """the non-default option values / input representation a case was run with"""
     kind = job["kind"]
     o = set()
-    sis = _stripped(job) if kind == "eqn" else [job["si"]] if kind in ("iso", "isor") else []
+    sis = _stripped(job) if kind == "eqn" else [job["si"]] if (kind in ("iso", "isor") or (kind == "scale" and job["sel"])) else []
     if any(si["units"] == "rad" for si in sis) or job.get("units") == "rad":
         o.add("units=rad")
     if any(si["stomp"] for si in sis):
@@ -724,6 +807,9 @@ def raw_sig(job, meta, clause, k):
         if clause == "no_error":
             return ["eq2xyz"], clause, m.get("err", "x:error").split(":")[-1]
         return ["eq2xyz"], clause, "pole" if m.get("polar") else "generic"
+    if kind == "scale":                            # class: how many blocks of 2^18 points the array spans
+        nblk = (job["n"] + 2 ** 18 - 1) // 2 ** 18
+        return [job["fn"] if job["sel"] == 0 else job["si"]["name"]], clause, "large_array:%s" % ("1_block" if nblk == 1 else "several_blocks")
     return [kind], clause, "?"
 
 
@@ -767,6 +853,11 @@ def describe(job, rec, k, clause):
         return "shiftlon/shiftra(lon=%r, mode=%s, shift=%r) returned %s (err=%s) via %s: %s" % (
             m["lon"], m["mode"], m["s"], None if m["ret"] is None else float.fromhex(m["ret"]), o.get("err"), m["members"],
             {kk: vv for kk, vv in o.items() if kk not in ("k", "mode", "err")})
+    if kind == "scale":
+        return "%s on %d points (the %d-point list repeated, one array call; options %s): %s; %s" % (
+            job["fn"] if job["sel"] == 0 else job["si"]["name"], job["n"], rec["c"]["m"],
+            {kk: job.get(kk) for kk in ("b1950", "mode", "s", "u", "ang") if job.get(kk) not in (None, False)},
+            {kk: vv for kk, vv in o.items() if kk != "k"}, m)
     if kind == "xyz":
         return "eq2xyz(units=%s, dtype=%s) of the rational-sphere point %s returned %s (%s call): img=%s unit=%s ulp err=%s" % (
             job["units"], job["dt"], job["u"], m.get("got"), m.get("shape"), o.get("img"), o.get("ul"), o.get("err"))
@@ -863,6 +954,29 @@ def build_jobs(ctx, exp, parts):
         pts = frame_points(fr)
         pool = fint[fr] if rep == "int" else pts
         return pool if len(pool) <= n else rng.sample(pool, n)
+
+    if "scale" in parts:
+        sizes = info["scalesizes"]
+        under = [n for n in sizes if n <= 2 ** 18]
+        over = [n for n in sizes if n > 2 ** 18]
+        convs = [(s, b, None) for s in edges for b in ((False, True) if sels[s]["euler"] else (False,))]
+        convs.append((11, False, [float(x).hex() for x in (30.0, 60.0, 45.0)]))
+        for nc, (s, b, ang) in enumerate(convs):
+            # quick: every size beyond one block of 2^18, and one of those within it (alternating); thorough: all
+            ns = sizes if not quick else over + [under[nc % len(under)]]
+            for n in ns:
+                jobs["scale"].append({"kind": "scale", "sel": s, "si": selmap[str(s)] if s != 11 else SI("rotate"), "frame": sels[s]["src"],
+                                      "b1950": b, "ang": ang, "n": n, "pts": frame_points(sels[s]["src"])})
+        lons8 = sorted({row["lon"] for row in exp["SHIFT"] if row["u"] == 8})
+        shifts = sorted({t for row in exp["SHIFT"] if row["u"] == 8 for t in row["s"]})
+        picks = [t for t in shifts if t in (-2881, -1440, -8, 0, 8, 1440, 3240)] or shifts[:5]
+        nj = 0
+        for fn in ("shiftlon", "shiftra"):
+            for mode in ("shift", "shift_nowrap", "wrap", "none"):
+                for sv in (picks if mode.startswith("shift") else [0]):
+                    nj += 1
+                    for n in (sizes if not quick else [over[nj % len(over)], under[nj % len(under)]]):
+                        jobs["scale"].append({"kind": "scale", "sel": 0, "fn": fn, "mode": mode, "s": sv, "u": 8, "lons": lons8, "n": n})
 
     if "eqn" in parts:
         for e in exp["EQN"]:
@@ -1034,14 +1148,14 @@ def validate_kernel(exp, quick):
 def run(ctx):
     sl.self_validate()
     B = BOUNDS[ctx.tier]
-    allparts = ("eqn", "iso", "anchor", "rot", "shift", "xyz")
+    allparts = ("scale", "eqn", "iso", "anchor", "rot", "shift", "xyz")
     parts = tuple(p for p in allparts if not getattr(ctx, "only", None) or p in ctx.only)
     consts = dict(B, FixedGE=True, DoExport=False)
     # 1. the theorems of Frames.tla on the bounded model; the add-then-fold mechanism of shiftlon refines the specification
     r1 = ctx.tlc("FramesMC.tla", what="path equations, lattice / shift / cube / anchor theorems (exhaustive)",
                  cfg_text=cfg(constants=consts, invariants=MODEL_INVARIANTS), workers=16, require=MODEL_ACTIONS, timeout=3000)
     # 1b. the pinned `> 360` fold must violate ShiftRefines (non-vacuity of the mechanism model)
-    small = dict(consts, GCA={0}, BMax=0, MerLons={0}, PoleLons={0}, EpsSet={1}, MaxD=1, MaxLen=1, LonStep8=80,
+    small = dict(consts, ScaleSizes={1001}, GCA={0}, BMax=0, MerLons={0}, PoleLons={0}, EpsSet={1}, MaxD=1, MaxLen=1, LonStep8=80,
                  ShiftSet8={80}, FixedGE=False)
     r1b = ctx.tlc("FramesMC.tla", what="self-test: the pinned `> 360` fold violates ShiftRefines",
                   cfg_text=cfg(constants=small, invariants=["ShiftRefines"]), workers=1, allow_violation=True, coverage=False)
@@ -1065,6 +1179,8 @@ def run(ctx):
         add_thetas(jobs["iso"], env["spts"])
     # 2b. evaluate (fork-parallel) and let TLC judge (code -> spec), in batches of bounded size
     def est(j):
+        if j["kind"] == "scale":
+            return 50
         return len((j.get("pts") if j["kind"] != "cube" else None) or j.get("qs") or j.get("vs") or j.get("cases") or j.get("ss") or [0]) + 2
     flat = []
     for part in parts:
@@ -1162,6 +1278,8 @@ def corrupt(kind, o):
         bad["v"] = bad["v"] + 1
     elif kind == "shiftr":
         bad["on"] = False
+    elif kind == "scale":
+        bad["len"] = bad["len"] + 1
     elif kind == "xyz":
         bad["img"] = [bad["img"][1], bad["img"][0], bad["img"][2] + 1, bad["img"][3]]
     return bad
